@@ -1,6 +1,7 @@
 package rules
 
 import (
+	"go/types"
 	"golang.org/x/tools/go/ssa"
 
 	"verif/internal/eng"
@@ -241,7 +242,8 @@ func ruleStoreDuplicateSites(c *eng.Ctx) {
 			sig := call.Common().Signature()
 			idx := -1
 			for i := 0; i < sig.Params().Len(); i++ {
-				if sig.Params().At(i).Name() == "storeDuplicate" {
+				// the one bool parameter of SaveBlob/SaveBlobAsync (named storeDuplicate)
+				if b, isB := sig.Params().At(i).Type().Underlying().(*types.Basic); isB && b.Kind() == types.Bool {
 					idx = i
 				}
 			}
@@ -265,10 +267,10 @@ func ruleStoreDuplicateSites(c *eng.Ctx) {
 			// forwarded parameter of a wrapper
 			fwd := false
 			for _, r := range eng.Origins(arg, nil) {
-				if prm, isP := r.(*ssa.Parameter); isP && prm.Name() == "storeDuplicate" {
+				if prm, isP := r.(*ssa.Parameter); isP && eng.LogicalName(prm) == "storeDuplicate" {
 					fwd = true
 				}
-				if fv, isFV := r.(*ssa.FreeVar); isFV && fv.Name() == "storeDuplicate" {
+				if fv, isFV := r.(*ssa.FreeVar); isFV && eng.LogicalName(fv) == "storeDuplicate" {
 					fwd = true
 				}
 			}
